@@ -239,9 +239,30 @@ func CheckExtract(c *core.Ctx, x []skv, keys []string, seqKind int, pool []strin
 				}
 			}
 		}
+		// a key that was requested twice: first or last requested position
+		var wantLast []skv
+		for i := len(keys) - 1; i >= 0; i-- {
+			dup := false
+			for _, w := range wantLast {
+				if w.k == keys[i] {
+					dup = true
+				}
+			}
+			if dup {
+				continue
+			}
+			for _, e := range x {
+				if e.k == keys[i] {
+					wantLast = append([]skv{e}, wantLast...)
+				}
+			}
+		}
 		if !coherent(r, want, pool) {
-			c16fail(c, "Extract/wrong-result", cs, "Extract=%s, expected %s", catStr(r), skvStr(want))
-			return
+			if !coherent(r, wantLast, pool) {
+				c16fail(c, "Extract/wrong-result", cs, "Extract=%s, expected %s", catStr(r), skvStr(want))
+				return
+			}
+			want = wantLast
 		}
 		if r == a {
 			c16fail(c, "Extract/result-is-operand", cs, "Extract returned its operand")
